@@ -172,6 +172,33 @@ func guardHelpers(c *core.Ctx, r *core.Rule) {
 	}
 	c.Counts["helpers_with_arbitrary_callers"] = nHelpers
 	c.Counts["helper_sites"] = nSites
+	// functions whose callers are not all understood: only what follows from the function's own
+	// length test is reported (the test covers a proper prefix of what is then accessed)
+	nB := 0
+	for _, fn := range core.SortedFns(roots.DecReach) {
+		if info[fn] != nil || len(fn.Blocks) == 0 || fn.Synthetic != "" || !p.InModule(fn) {
+			continue
+		}
+		var q *ssa.Parameter
+		for _, pa := range fn.Params {
+			if core.IsByteSlice(pa.Type()) {
+				q = pa
+				break
+			}
+		}
+		if q == nil {
+			continue
+		}
+		k := 0
+		for _, s := range guard.Analyze(fn, &guard.RootInfo{Data: q, MinLen: 0}) {
+			if s.Class == "DEF" && s.Belief {
+				nB++
+				k++
+				r.Violate(fmt.Sprintf("%s/own-guard-covers-prefix#%d", core.FnKey(fn), k), p.InstrPos(s.Ins), s.What+": "+s.Why+"; the function itself tests the length, so it does not rely on its callers for it", nil)
+			}
+		}
+	}
+	c.Counts["belief_sites"] = nB
 }
 
 // loopProgress (R19.3): a loop over packet bytes whose per-iteration advance is
